@@ -6,6 +6,7 @@ TimeoutLimit clauses are corollaries of the theorems about every disciplined sit
 -/
 import GoZero.C05.ProofsSim
 import GoZero.C05.Props
+import GoZero.C05.ProofsWG
 namespace GoZero.C05
 
 /-- **Simulation.**  Every reachable state of ModelTL (any capacity, any number of callers, any order of
@@ -102,5 +103,71 @@ example : ∃ s, TLReach 1 s ∧ s.pc 1 = .holding ∧ s.used = 1 :=
   ⟨_, .step (.retry 1) (.step (.deliver 0 1 false) (.step (.leave 0) (.step (.park 1) (.step (.borrow 1)
     (.step (.borrow 0) .init (.borrowOk rfl (by decide))) (.borrowFull rfl (by decide))) (.park rfl))
     (.leaveOk rfl (by decide))) (.deliver rfl rfl)) (.retryOk rfl (by decide)), rfl, rfl⟩
+
+/-! ## `WorkerGroup.Start` as the real program: the spawn loop is a model step -/
+
+/-- **The cap of `WorkerGroup`, for the real program.**  `Start` with `workers = w` (any Go `int`, also 0 or
+negative): in every reachable state — any schedule of the `Start` call and of any number of goroutines, jobs ending
+by return, panic or Goexit in any order — the goroutines that are running are at most `w` (none for `w ≤ 0`), each
+of them was spawned by the loop (`j < i`), and the loop variable never passes `w`.  (`workerGroup_cap` assumed
+"only k threads act"; here that is a consequence of the spawn loop.) -/
+theorem workerGroup_cap_real (w : Int) (s : WGSt) (h : WGReach w s) (l : List Tid) (hl : l.Nodup)
+    (hin : ∀ t ∈ l, s.job t = .running) : l.length ≤ w.toNat ∧ (s.i ≤ w ∨ s.i = 0) := by
+  have hi := wgreach_inv h
+  refine ⟨nodup_lt_length hl ?_, hi.ile⟩
+  intro t ht
+  have hrun := hin t ht
+  have h1 := hi.ile
+  have h2 := hi.inn
+  have key : ∀ k : Nat, s.job k = .running → k < w.toNat := by
+    intro k hk
+    have hlt : (k : Int) < s.i := by
+      apply Classical.byContradiction
+      intro hge
+      have := hi.fresh k (by omega)
+      rw [hk] at this; cases this
+    omega
+  exact key t hrun
+
+/-- the wait-group counter is exactly the number of running goroutines. -/
+theorem workerGroup_wg_counts (w : Int) (s : WGSt) (h : WGReach w s) :
+    ∃ rs : List Tid, rs.Nodup ∧ (∀ t, isRunning (s.job t) = true ↔ t ∈ rs) ∧ rs.length = s.wg :=
+  (wgreach_inv h).tracks
+
+/-- **`Start` returns only after exactly `workers` jobs were started and every one of them has ended**: when
+`group.Wait()` has returned, goroutines `0 … w-1` have all ended, no other goroutine was ever started, none is running. -/
+theorem workerGroup_start_returns_after_all_real (w : Int) (s : WGSt) (h : WGReach w s) (hr : s.start = .returned) :
+    (∀ j : Nat, (j : Int) < w → s.job j = .ended) ∧ (∀ j : Nat, w ≤ (j : Int) → s.job j = .notStarted)
+    ∧ ∀ j, s.job j ≠ .running := by
+  have hi := wgreach_inv h
+  have hnl : s.start ≠ .loop := by rw [hr]; simp
+  have hex := hi.exited hnl
+  have hz := hi.ret hr
+  have hnorun : ∀ j, s.job j ≠ .running := by
+    intro j hj
+    have := tracks_pos hi.tracks j (by rw [hj]; rfl)
+    omega
+  refine ⟨?_, ?_, hnorun⟩
+  · intro j hj
+    have hb := hi.below j (by have := hi.ile; have := hi.inn; omega)
+    have hn := hnorun j
+    cases hjj : s.job j <;> simp_all
+  · intro j hj
+    exact hi.fresh j (by have := hi.ile; have := hi.inn; omega)
+
+/-- the `Start` call is never stuck before its `Wait`, and a running goroutine can always end: the loop either
+spawns or exits. -/
+theorem workerGroup_loop_progress (s : WGSt) (hl : s.start = .loop) : ∃ s', WGStep s s' := by
+  cases ht : wgLoopTest s.i s.workers
+  · exact ⟨_, .loopExit hl ht⟩
+  · exact ⟨_, .spawn hl ht⟩
+
+/-- non-vacuity: `workers = 2`: both goroutines running at once, then both end (one "by panic": the same step),
+`Wait` returns. -/
+example : ∃ s, WGReach 2 s ∧ s.job 0 = .running ∧ s.job 1 = .running ∧ s.wg = 2 :=
+  ⟨_, .step (.step .init (.spawn rfl rfl)) (.spawn rfl rfl), rfl, rfl, rfl⟩
+
+example : ∃ s, WGReach 0 s ∧ s.start = .returned :=
+  ⟨_, .step (.step .init (.loopExit rfl rfl)) (.waitReturns rfl rfl), rfl⟩
 
 end GoZero.C05
